@@ -50,10 +50,9 @@ class Cx:
         v = z3.Int(name)
         self._reg(name, "int", v)
         self.named[name] = v
-        if lo is not None:
-            self.ex.assume(v >= lo)
-        if hi is not None:
-            self.ex.assume(v <= hi)
+        # symbolic integers are bounded (|.| <= 10**6 unless stated): they have to fit the integer dtypes of the real library
+        self.ex.assume(v >= (lo if lo is not None else -10**6))
+        self.ex.assume(v <= (hi if hi is not None else 10**6))
         return S._mk(cls, v)
 
     def ints(self, name, n, lo=None, hi=None, cls=S.int64):
@@ -282,11 +281,11 @@ def concretise(ex, cx, extra=()):
     r = ex.check(*extra)
     if r != "sat":
         return None
-    model = ex.solver.model()
+    model = ex.last_model()
     vals, pins = _round_inputs(cx, model)
     r = ex.check(*extra, *pins)
     if r == "sat":
-        return vals, ex.solver.model(), True
+        return vals, ex.last_model(), True
     # greedy repair: pin one input at a time to its rounded value, leave the others to the solver
     kept = []
     for p in pins:
@@ -294,10 +293,10 @@ def concretise(ex, cx, extra=()):
             kept.append(p)
     if ex.check(*extra, *kept) != "sat":
         return vals, model, False
-    model = ex.solver.model()
+    model = ex.last_model()
     vals, pins = _round_inputs(cx, model)
     if ex.check(*extra, *pins) == "sat":
-        return vals, ex.solver.model(), True
+        return vals, ex.last_model(), True
     return vals, model, False
 
 
